@@ -104,8 +104,19 @@ class Scn:
         for h in self.order:
             out += ["do h%d %s" % (h, o) for o in self.bodies[h]]
         out.append("do top run")
+        out += getattr(self, "raw", [])
         out.append("end")
         return "\n".join(out) + "\n"
+
+    def at_boundary(self, ctxname, call, r=0):
+        """a call placed at a step-hook boundary of run(): `a<k>` = after the k-th clock step, when the
+        expired timers' completions (the resolver's own among them) are posted and none has run"""
+        if not hasattr(self, "raw"): self.raw = []
+        if call[0] == "c":
+            self.raw.append("do %s r%d.cancel" % (ctxname, r)); return None
+        h = self.newh()
+        self.raw.append("do %s r%d.resolve %s %s h%d" % (ctxname, r, call[1], "80", h))
+        return h
 
 
 # abstract calls: ("n", name) | ("l", literal) | ("c",)
@@ -300,8 +311,22 @@ def generate(seed, tier):
             apply_call(s, ctx, L6, r=1)
             out.append(s.text())
 
+    # 7. calls between the resolver's timer firing and its posted completion running (and after
+    #    each handler): cancel / new lookups exactly at the instant a lookup is due
+    M = ("n", "m.com")
+    bases7 = [[A], [F, U], [M, A], [L4, F], [A, B]] + ([[F, F, F], [Z, A], [L6, M]] if thorough else [])
+    bodies7 = [[C, M], [C, F], [C], [M], [C, L4], [F, C]] + ([[C, A], [L4], [C, C, F]] if thorough else [])
+    for ini in bases7:
+        for body in bodies7:
+            for kind in ("a", "s"):
+                for k in ((1, 2, 3, 4) if thorough else (1, 2, 3)):
+                    s = mk()
+                    for c in ini: apply_call(s, "top", c)
+                    for c in body: s.at_boundary("%s%d" % (kind, k), c)
+                    out.append(s.text())
+
     # 6. random longer programs
-    target = 20000 if thorough else 850
+    target = 20000 if thorough else 1100
     while len(out) < target:
         counter[0] += 1
         out.append(random_scenario(rng, counter[0]))
